@@ -15,6 +15,7 @@ import ZnVerif.Model.Interp
 import ZnVerif.Proofs.Heap
 import ZnVerif.Proofs.HeapFrames
 import ZnVerif.Proofs.HeapMutators
+import ZnVerif.Proofs.HeapStores
 import ZnVerif.Proofs.HeapSites
 import ZnVerif.Proofs.HeapMono
 set_option linter.unusedSectionVars false
@@ -86,8 +87,9 @@ theorem dup_cyclic_out_of_fuel (n : Nat) (s : VM ν) (a : Addr) (hc : s.heap[a]?
   | zero => rfl
   | succ n ih => simp [dup, bind, getCell, hc, ih]
 
-/-- on a list that links back to itself — here cell 1 = `[cell 0, cell 1]` — `dup` (and with it every copying site)
-exhausts every fuel: value.DuplicateValue recurses without end -/
+/-- a lemma about `dup` alone: on a list that links back to itself — here cell 1 = `[cell 0, cell 1]` — `dup` (and with
+it every copying site) exhausts every fuel: value.DuplicateValue would recurse without end.  (This is why readability —
+acyclicity — is the hypothesis of `dup_separates`; `mutators_preserve_acyclicity` shows the built-in mutators keep it.) -/
 theorem dup_on_cycle_never_returns (n : Nat) : ∀ (s : VM ν) (x : ν), s.heap[0]? = some (.num x) →
     s.heap[1]? = some (.arr [0, 1]) → (dup n 1 s).1 = .fuel := by
   induction n with
@@ -487,9 +489,8 @@ theorem element_store_is_mutation_through (a b root : Addr) (nm : String) (idx :
   · exact element_store_mutSeq a b root nm idx v s s' h hr hs hv
   · exact key_store_mutSeq a b root nm idx v s s' h hr hs hv
 
-/-- the same for 前增, 新增, 添加, 写入, 移除, 左移, 右移, 交换, 自增, 自减 — every mutating built-in except 合并, which is *not* of
-this kind: it stores the elements of its argument lists by reference, so `以 B（合并：A）` makes `B` and `A` share their
-elements (the side condition of `MutSeq.write` fails; on the real code `B#2#1 = 9` then changes `A`). -/
+/-- the same for 前增, 新增, 添加, 写入, 移除, 左移, 右移, 交换, 自增, 自减 (and 合并: `merge_is_mutation_through`) — every mutating
+built-in of the model -/
 theorem other_mutators_are_mutations_through (n : Nat) (a b r : Addr) (s s' : VM ν) (hr : Reach s.heap b r)
     (hs : Sep s.heap a b) :
     (∀ x items res t, builtinMethod n r "前增" [x] s = (.ok res, s') → s.heap[r]? = some (.arr items) →
@@ -515,6 +516,102 @@ theorem other_mutators_are_mutations_through (n : Nat) (a b r : Addr) (s s' : VM
    fun items res h hc => pop_back_mutSeq n a b r items s s' res h hc hr hs,
    fun p q pv qv items res h hc hp hq => swap_mutSeq n a b r p q pv qv items s s' res h hc hp hq hr hs,
    fun name v x y res hn h hc hv => incr_mutSeq n a b r v name hn x y s s' res h hc hv hr hs⟩
+
+/-- **merge_stores_copies.**  `以 r（合并：v₁、…）` on a list cell `r`, the arguments being list cells whose items read as `ts`:
+every item of every argument is duplicated (DuplicateValue, as 后增 does); `r`'s cell becomes its old items followed by
+the duplicates `news`, which read as `ts` again and below which every copied-kind cell is new; nothing else of the old
+heap changes; the answer is a second list cell over the same items.  (Before the repair the items themselves were
+stored: `以 B（合并：A）` made `B` and `A` share their elements, and `以 A（合并：【A】）` made `A` an element of itself.) -/
+theorem merge_stores_copies (n : Nat) (r : Addr) (vals : List Addr) (items : List Addr) (cellOf : Addr → List Addr)
+    (s s' : VM ν) (res : Addr) (ts : List (Tree ν))
+    (h : builtinMethod n r "合并" vals s = (.ok res, s'))
+    (hc : s.heap[r]? = some (.arr items))
+    (hcells : ∀ v ∈ vals, s.heap[v]? = some (.arr (cellOf v)))
+    (hts : (vals.flatMap cellOf).mapM (content n s.heap) = some ts) :
+    ∃ (news : List Addr) (s1 : VM ν), s1 = { s with heap := s1.heap } ∧
+      (s.heap.size ≤ s1.heap.size ∧ ∀ i, i < s.heap.size → s1.heap[i]? = s.heap[i]?) ∧
+      news.mapM (content n s1.heap) = some ts ∧
+      (∀ y ∈ news, ∀ j, Reach s1.heap y j → Mutable s1.heap j → s.heap.size ≤ j) ∧
+      res = s1.heap.size ∧
+      s' = { s1 with heap := (s1.heap.set! r (.arr (items ++ news))).push (.arr (items ++ news)) } := by
+  rcases merge_spec n r vals items cellOf s s' res ts h hc hcells hts with ⟨news, s1, hg, hcont, hall, hres, hs'⟩
+  refine ⟨news, s1, hg.1, hg.2, hcont, fun y hy j hr hm => ?_, hres, hs'⟩
+  rcases (hall y hy).2 j hr with h | h
+  · exact h
+  · exact absurd h (not_shared_of_mutable hm)
+
+/-- **merge_is_mutation_through.**  合并 on a list cell below `b` is a `MutSeq` through `b` like every other mutator -/
+theorem merge_is_mutation_through (n : Nat) (a b r : Addr) (vals : List Addr) (items : List Addr) (cellOf : Addr → List Addr)
+    (s s' : VM ν) (res : Addr) (ts : List (Tree ν))
+    (h : builtinMethod n r "合并" vals s = (.ok res, s'))
+    (hc : s.heap[r]? = some (.arr items))
+    (hcells : ∀ v ∈ vals, s.heap[v]? = some (.arr (cellOf v)))
+    (hts : (vals.flatMap cellOf).mapM (content n s.heap) = some ts)
+    (hr : Reach s.heap b r) (hs : Sep s.heap a b) : MutSeq a b s.heap s'.heap :=
+  merge_mutSeq n a b r vals items cellOf s s' res ts h hc hcells hts hr hs
+
+/-! ## acyclicity is preserved -/
+
+/-- **every mutating built-in is one store** (`StoreStep r h h'`): allocations; then the receiver's own cell `r` is replaced
+by a cell (well formed if the old one was) each of whose links is one of `r`'s own old links or a readable value whose
+copied-kind cells were all allocated since the call started; then allocations.  For the methods that store an argument
+(后增 前增 新增 添加 写入 合并) the hypothesis is that the argument is readable and the call succeeded; the others are covered
+for every outcome. -/
+theorem every_mutator_is_a_store (n : Nat) (r : Addr) (s s' : VM ν) :
+    (∀ x items res t, builtinMethod n r "后增" [x] s = (.ok res, s') → s.heap[r]? = some (.arr items) →
+        content n s.heap x = some t → StoreStep r s.heap s'.heap) ∧
+    (∀ x items res t, builtinMethod n r "前增" [x] s = (.ok res, s') → s.heap[r]? = some (.arr items) →
+        content n s.heap x = some t → StoreStep r s.heap s'.heap) ∧
+    (∀ name x p pv items res t, name = "新增" ∨ name = "添加" → builtinMethod n r name [x, p] s = (.ok res, s') →
+        s.heap[r]? = some (.arr items) → s.heap[p]? = some (.num pv) → content n s.heap x = some t →
+        StoreStep r s.heap s'.heap) ∧
+    (∀ k x key vals order res t, builtinMethod n r "写入" [k, x] s = (.ok res, s') → s.heap[r]? = some (.hm vals order) →
+        s.heap[k]? = some (.str key) → content n s.heap x = some t → StoreStep r s.heap s'.heap) ∧
+    (∀ vals items cellOf res ts, builtinMethod n r "合并" vals s = (.ok res, s') → s.heap[r]? = some (.arr items) →
+        (∀ v ∈ vals, s.heap[v]? = some (.arr (cellOf v))) → (vals.flatMap cellOf).mapM (content n s.heap) = some ts →
+        StoreStep r s.heap s'.heap) ∧
+    (∀ k key vals order res, builtinMethod n r "移除" [k] s = (res, s') → s.heap[r]? = some (.hm vals order) →
+        s.heap[k]? = some (.str key) → StoreStep r s.heap s'.heap) ∧
+    (∀ items res, builtinMethod n r "左移" [] s = (res, s') → s.heap[r]? = some (.arr items) → StoreStep r s.heap s'.heap) ∧
+    (∀ items res, builtinMethod n r "右移" [] s = (res, s') → s.heap[r]? = some (.arr items) → StoreStep r s.heap s'.heap) ∧
+    (∀ p q pv qv items res, builtinMethod n r "交换" [p, q] s = (res, s') → s.heap[r]? = some (.arr items) →
+        s.heap[p]? = some (.num pv) → s.heap[q]? = some (.num qv) → StoreStep r s.heap s'.heap) ∧
+    (∀ name v x y res, name = "自增" ∨ name = "自减" → builtinMethod n r name [v] s = (res, s') →
+        s.heap[r]? = some (.num x) → s.heap[v]? = some (.num y) → StoreStep r s.heap s'.heap) :=
+  ⟨fun x items res t h hc ht => push_back_storeStep n r x items s s' res t h hc ht,
+   fun x items res t h hc ht => push_front_storeStep n r x items s s' res t h hc ht,
+   fun name x p pv items res t hn h hc hp ht => insert_storeStep n r x p name hn pv items s s' res t h hc hp ht,
+   fun k x key vals order res t h hc hk ht => dict_put_storeStep n r k x key vals order s s' res t h hc hk ht,
+   fun vals items cellOf res ts h hc hcells hts => merge_storeStep n r vals items cellOf s s' res ts h hc hcells hts,
+   fun k key vals order res h hc hk => dict_remove_storeStep n r k key vals order s s' res h hc hk,
+   fun items res h hc => pop_front_storeStep n r items s s' res h hc,
+   fun items res h hc => pop_back_storeStep n r items s s' res h hc,
+   fun p q pv qv items res h hc hp hq => swap_storeStep n r p q pv qv items s s' res h hc hp hq,
+   fun name v x y res hn h hc hv => incr_storeStep n r v name hn x y s s' res h hc hv⟩
+
+/-- **acyclic_preserved (built-in mutators).**  A store keeps every value that was acyclic and well formed acyclic and well
+formed (equivalently: readable, `readable_iff_acyclic`) — so after any of the calls of `every_mutator_is_a_store`, `dup`,
+`display` and comparison still terminate on every value on which they terminated before.  It is also a mutation
+through whatever is above the receiver. -/
+theorem mutators_preserve_acyclicity (r : Addr) (h h' : Array (Cell ν)) (st : StoreStep r h h') (a : Addr)
+    (ha : Acyclic h a ∧ WellFormed h a) : Acyclic h' a ∧ WellFormed h' a := st.acyclic a ha
+
+theorem store_is_mutation_through (r a b : Addr) (h h' : Array (Cell ν)) (st : StoreStep r h h')
+    (hr : Reach h b r) (hs : Sep h a b) : MutSeq a b h h' := st.mutSeq hr hs
+
+/-- **acyclic_preserved (element, key and property assignment).**  A successful `reduceLHS (kind, root, …) v` — `c#i = v`,
+`c#{k} = v`, `c 之 p = v` — keeps every acyclic well-formed value so, provided the stored `v` is itself acyclic and well
+formed and `root` is not reachable from `v`.  At the model's only call site (`evalExpr (.assign …)`,
+`element_assign_stores_copy`) `v` is the fresh result of `dup`, made *before* the root and index expressions are
+evaluated; that no cell existing or allocated afterwards can be reached from that private copy is not proved here (it
+needs the invariant that every cell reachable from a scope or frame excludes the evaluator's temporaries).  A property
+write on an object needs no hypothesis at all: objects are not traversed, so an object may hold itself. -/
+theorem stores_preserve_acyclicity (kind : Nat) (root : Addr) (nm : String) (idx : Int) (v : Addr) (s s' : VM ν)
+    (h : reduceLHS (kind, root, nm, idx) v s = (.ok (), s'))
+    (hv : Acyclic s.heap v ∧ WellFormed s.heap v) (hnr : ¬ Reach s.heap v root) (a : Addr)
+    (ha : Acyclic s.heap a ∧ WellFormed s.heap a) : Acyclic s'.heap a ∧ WellFormed s'.heap a :=
+  (content_defined_iff _ a).1
+    (reduceLHS_readable kind root nm idx v s s' h ((content_defined_iff _ v).2 hv) hnr a ((content_defined_iff _ a).2 ha))
 
 /-- reading `c#i` / `c#{k}` answers a cell that `c`'s cell links to (so access paths below a name stay below what the
 name denotes) and changes nothing -/
@@ -686,13 +783,26 @@ example : dup 2 4 exObj = (.ok 5, { exObj with heap := exObj.heap.push (.arr [3]
 /-- property_write_seen_by_all: a property write on the object succeeds -/
 example : ∃ s', setProperty 3 "p" 0 exObj = (.ok (), s') := ⟨_, rfl⟩
 
-/-- (history) on the pinned tree 合并 stored the elements of its argument lists by reference, so `以 A（合并：【A】）` made `A`
-an element of itself and no copying site returned on it any more (`dup_on_cycle_never_returns`; the Go process recursed
-until its stack was exhausted). Repaired in /repo (合并 stores copies, commit bf7aa9c); the model's 合并 now `dup`s every
-merged item: cell 1 is `A = 【1】`, cell 2 is the literal `【A】`; the merged item is a fresh copy (cell 4), not cell 1. -/
-example : (builtinMethod 3 1 "合并" [2] ({ heap := #[.num 1, .arr [0], .arr [1]] } : VM Int)).2.heap[1]? =
-    some (.arr [0, 4]) := by rfl
-example (n : Nat) : (dup n 1 ({ heap := #[.num 1, .arr [0, 1], .arr [1], .arr [0, 1]] } : VM Int)).1 = .fuel :=
+/-- 合并 after the repair (merge_stores_copies): `以 A（合并：【A】）` — cell 1 is `A = 【1】`, cell 2 is the literal `【A】` — appends a
+*copy* of `A` (cells 3, 4), not `A` itself: no list becomes an element of itself, and `A` stays readable -/
+example : builtinMethod 2 1 "合并" [2] ({ heap := #[.num 1, .arr [0], .arr [1]] } : VM Int) =
+    (.ok 5, { heap := #[.num 1, .arr [0, 4], .arr [1], .num 1, .arr [3], .arr [0, 4]] }) := by rfl
+example : content 3 (#[.num 1, .arr [0, 4], .arr [1], .num 1, .arr [3], .arr [0, 4]] : Array (Cell Int)) 1 =
+    some (.list [.num 1, .list [.num 1]]) := by rfl
+/-- hypotheses of merge_stores_copies / merge_is_mutation_through on that call -/
+example : ((([2] : List Addr).flatMap (fun _ => [1])).mapM (content 2 (#[.num 1, .arr [0], .arr [1]] : Array (Cell Int))))
+    = some [.list [.num 1]] := by rfl
+/-- stores_preserve_acyclicity: the hypothesis `¬ Reach v root` cannot be dropped — handing `reduceLHS` the list itself as the
+value makes the list an element of itself (the evaluator never does: it hands over a fresh `dup`) -/
+example : reduceLHS (1, 1, "", 1) 1 ({ heap := #[.num 1, .arr [0]] } : VM Int) = (.ok (), { heap := #[.num 1, .arr [1]] }) := by rfl
+/-- … and a call that meets the hypotheses: store the number cell 0 into the list cell 1 -/
+example : reduceLHS (1, 1, "", 1) 0 ({ heap := #[.num 1, .arr [0]] } : VM Int) = (.ok (), { heap := #[.num 1, .arr [0]] }) := by rfl
+example : ¬ Reach (#[.num 1, .arr [0]] : Array (Cell Int)) 0 1 := fun h => by
+  have := reach_leaf (h := (#[.num 1, .arr [0]] : Array (Cell Int))) (b := 0) (c := .num 1) rfl rfl h
+  cases this
+/-- dup_on_cycle_never_returns: a hand-made heap in which cell 1 links to itself (no mutator of the model is known to
+build one any more — `mutators_preserve_acyclicity`) -/
+example (n : Nat) : (dup n 1 ({ heap := #[.num 1, .arr [0, 1]] } : VM Int)).1 = .fuel :=
   dup_on_cycle_never_returns n _ 1 rfl rfl
 
 end examples
